@@ -231,6 +231,9 @@ func compiled(repo, dir string, seed uint64, tier string) error {
 		}
 		out.Count("unit:linked")
 		d := u.doc
+		if u.idx < 2 {
+			out.Sample(map[string]interface{}{"compiled_unit": u.idx, "idl": clip(d.Text())})
+		}
 		docStats(out, d, genCfg{})
 		root, perr := parser.ParseBatchString(d.Files[0].Path, d.Render(), nil)
 		if perr != nil {
